@@ -628,8 +628,15 @@ PROPS["C07"] = dict(
                  "listener runs at any later time",
                  "Go's sync.RWMutex / sync.Pool semantics (atomic steps of the LTS)"],
     trusted=["C07: the three lost-race states are planted through the hook MemoryCache.VerifPlant (the state a reader "
-             "finds after backend.Get when eviction/recycling won the race); the redis backend is not exercised"],
+             "finds after backend.Get when eviction/recycling won the race); the redis backend is not exercised",
+             "C07: the buffer-level LTS Cache/CacheBuf.v (pooled arrays under the values, one octet per copy step) is tied "
+             "to the code by reading only; its trace property (every hit returns octets some Store supplied for the key) is "
+             "the oracle of kind cachechurn, which samples real schedules - sync.Pool / bytespool are modelled as 'any free "
+             "array'"],
     level_note="proof: key injectivity, range lookup = linear spec, hit => stored under the same key in every "
-               "interleaving, value round trip, repeat => hit; partial: otter/s2/netip are modelled (oracles), redis "
-               "path not exercised, the text parser of the marker file is not modelled below the line level",
+               "interleaving, the copy is made under the entry lock and (buffer-level LTS) returns the stored octets "
+               "unchanged although arrays are recycled, value round trip, repeat => hit; partial: otter/s2/netip and "
+               "the byte pool are modelled (oracles; the buffer-level theorem is tested on the code by the cachechurn "
+               "stress, not tied by differential execution), redis path not exercised, the text parser of the marker "
+               "file is not modelled below the line level",
 )
